@@ -375,6 +375,23 @@ SAFE = re.compile(r'^[^,():"\[\]]+$')
 def gen_queries(rng, docs, n):
     objs = objects(docs)
     qs = []
+    # planted: value queries (one value, two different values in both orders, a value and an attribute) on the first
+    # Properties that allow them; sets with two revisions of one document are left to the attribute queries
+    if len({d["id"] for d in docs}) == len(docs):
+        planted = 0
+        for k, m, par in objs:
+            if k != "Prop" or planted >= 2:
+                continue
+            vals = []
+            for x in m["values"]:
+                if text(x) not in vals and SAFE.match(text(x)):
+                    vals.append(text(x))
+            if len(vals) >= 2:
+                planted += 1
+                qs.append({"mode": "match", "form": "dict", "pairs": [["Prop", "value", vals[:2]]]})
+                qs.append({"mode": "match", "form": "dict", "pairs": [["Prop", "value", vals[:2][::-1]]]})
+                qs.append({"mode": "match", "form": "dict", "pairs": [["Prop", "value", vals[:1]], ["Prop", "name", m["name"]]]})
+                qs.append({"mode": "match", "form": "dict", "pairs": [["Prop", "value", [vals[0], "absent-xyz"]]]})
     for _ in range(n):
         combo = rng.choice([["Doc"], ["Sec"], ["Sec"], ["Prop"], ["Prop"], ["Doc", "Sec"], ["Sec", "Prop"], ["Sec", "Prop"],
                             ["Doc", "Sec", "Prop"]])
